@@ -404,12 +404,14 @@ fn c15_case(seed: u64, index: u64, rep: &mut Report) {
     // authors with mixed gc settings
     let n = r.range(2, 3) as usize;
     let cfgs: Vec<DocCfg> = (0..n).map(|_| DocCfg { gc: r.chance(1, 2), ..DocCfg::default() }).collect();
-    let mut ecfg = EditCfg::default(); ecfg.deletes = true;
-    let st = r.range(6, 16); let ff = r.chance(1, 2); let h = gen_history(&mut r, &cfgs, st, ff, &ecfg);
+    // a third of the histories are rich-text only (formatting markers, re-formatting, deletions inside formatted ranges)
+    let mut ecfg = if index % 3 == 0 { EditCfg { text: true, array: false, map: false, xml: false, nested: false, formatting: true, deletes: true } } else { EditCfg::default() }; ecfg.deletes = true;
+    let st = if index % 3 == 0 { r.range(10, 26) } else { r.range(6, 16) }; let ff = r.chance(1, 2); let h = gen_history(&mut r, &cfgs, st, ff, &ecfg);
     let mut fails: Vec<serde_json::Value> = vec![];
     // twins fed the same updates in the same order
-    let g = Replica::new(400, DocCfg { gc: true, ..DocCfg::default() });
-    let ng = Replica::new(401, DocCfg::default());
+    let cleanup = r.chance(1, 2);   // both twins clean up redundant formatting after remote transactions, or neither does
+    let g = Replica::new(400, DocCfg { gc: true, cleanup, ..DocCfg::default() });
+    let ng = Replica::new(401, DocCfg { cleanup, ..DocCfg::default() });
     let mut order: Vec<usize> = (0..h.msgs.len()).collect();
     if r.chance(1, 2) { r.shuffle(&mut order); }
     let mut deleted_any = false;
